@@ -68,6 +68,7 @@ func vWatchedReads() int
 func vHash(kind string, data []byte, n int) []byte
 func vSchedule()
 func vThreads()
+func vSchedulePolicy(k int)
 func vYield()
 func vLiveThreads() int
 func vTimerCount() int
